@@ -32,7 +32,7 @@ func runC12(r *core.Run) {
 	r.Rule("R12.1", "guarded-by: shared fields are accessed under their lock (E-LOCK)", 15, true)
 	r.Rule("R12.2", "routing by the header's channel id under the read lock", 2, false)
 	r.Rule("R12.3", "outgoing packets carry channel id and consecutive packet numbers", 3, false)
-	r.Rule("R12.4", "registration and removal use the channel's own id", 2, false)
+	r.Rule("R12.4", "registration and removal use the channel's own id; registration precedes the set-up packet", 3, false)
 	r.Rule("R12.5", "logical channel set-up acknowledgement can be recognised", 2, false)
 	r.Rule("R12.6", "packets for a closed channel are dropped under the lock", 1, false)
 
@@ -387,6 +387,25 @@ func c12Registration(r *core.Run, la *lockAnalysis) {
 		}
 	}
 	r.Check(ok, "R12.4", "NewChannel registers under its own id", nc.Pos(), "tdsChannels[id] = &Channel{channelId: id}", why)
+	// the registration dominates the set-up packet: the acknowledgement can be routed as soon as the packet is out
+	sp := p.Func("tds", "Channel", "sendPacket")
+	okOrder, whyOrder := true, ""
+	for _, c := range callsTo(nc, sp) {
+		regBefore := false
+		for _, b := range nc.Blocks {
+			for _, in := range b.Instrs {
+				if mu, isMU := in.(*ssa.MapUpdate); isMU {
+					if f, _ := core.FieldLoad(mu.Map); f == fChannels && core.Dominates(mu, c.(ssa.Instruction)) {
+						regBefore = true
+					}
+				}
+			}
+		}
+		if !regBefore {
+			okOrder, whyOrder = false, "the set-up packet is sent before the channel is registered in tdsChannels: a fast acknowledgement is routed while the channel is still unknown (\"invalid channel\") and the set-up fails although the server accepted it"
+		}
+	}
+	r.Check(okOrder, "R12.4", "NewChannel registers before sending the set-up packet", nc.Pos(), "the map update dominates sendPacket(setup)", whyOrder)
 	okDel, whyDel := false, "Close does not delete the channel from tdsChannels"
 	for _, c := range core.Calls(cl) {
 		cc, isC := c.(*ssa.Call)
